@@ -1,22 +1,57 @@
 pub mod common;
 pub mod c02;
+pub mod c08;
+pub mod c13;
 
-pub fn run(id: &str, tier: &str) -> i32 {
-    match id {
-        "C02" => c02::run(tier),
-        _ => {
-            eprintln!("MACHINERY: no check for {id}");
-            2
+use crate::engine::sched::{Choice, Cost, ScenarioFactory};
+
+macro_rules! dispatch {
+    ($($id:literal => $m:ident),* $(,)?) => {
+        pub fn run(id: &str, tier: &str) -> i32 {
+            match id {
+                $($id => $m::run(tier),)*
+                _ => { eprintln!("MACHINERY: no check for {id}"); 2 }
+            }
         }
-    }
+        pub fn replay(id: &str, v: &serde_json::Value) -> i32 {
+            match id {
+                $($id => $m::replay(v),)*
+                _ => { eprintln!("MACHINERY: no replay for {id}"); 2 }
+            }
+        }
+    };
 }
 
-pub fn replay(id: &str, v: &serde_json::Value) -> i32 {
-    match id {
-        "C02" => c02::replay(v),
-        _ => {
-            eprintln!("MACHINERY: no replay for {id}");
-            2
-        }
+dispatch! {
+    "C02" => c02,
+    "C08" => c08,
+    "C13" => c13,
+}
+
+/// Re-run one recorded schedule of an engine-A scenario without the explorer and print what happened.
+pub fn replay_schedule(factory: ScenarioFactory, v: &serde_json::Value) -> i32 {
+    let prefix: Vec<Choice> = serde_json::from_value(v["prefix"].clone()).expect("prefix");
+    let big = Cost { preempt: 100000, fault: 100000, crash: 100000, clock: 100000 };
+    let r = crate::engine::sched::replay(&factory, &prefix, big);
+    for l in &r.trace {
+        println!("{l}");
+    }
+    if let Some(e) = &r.machinery_error {
+        println!("MACHINERY: {e}");
+        return 2;
+    }
+    let mut vs = r.step_violations.clone();
+    if let Some(f) = &r.finish {
+        vs.extend(f.violations.clone());
+        println!("outcome: {}", f.outcome);
+    }
+    for v in &vs {
+        println!("violation [{}]: {}", v.sig, v.msg);
+    }
+    if vs.is_empty() {
+        println!("no violation on this schedule");
+        0
+    } else {
+        1
     }
 }
